@@ -243,34 +243,40 @@ def first_diff(a, b):
 # client asks is read from the extracted model's trace (Impl is compared against the same script)
 # ---------------------------------------------------------------------------
 class Cache:
-    def __init__(self, rnd, ver=1):
+    def __init__(self, rnd, ver=1, big=False):
         self.rnd = rnd
         self.ver = ver
+        self.big = big
         self.session = rnd.choice([0, 1, 42, 65535, rnd.randint(0, 65535)])
         self.serial = rnd.choice([0, 1, 7, 2 ** 32 - 2, 2 ** 32 - 1, rnd.randint(0, 2 ** 32 - 1)])
         self.data = []              # list of ("p", rec) / ("k", key)
         self.history = {}           # serial -> data snapshot
         self.pool = self._pool()
         self.ivals = (3600, 600, 7200)
-        self.mutate(n=rnd.randint(0, 6))
+        self.mutate(n=rnd.randint(150, 380) if big else rnd.randint(0, 6))
 
     def _pool(self):
         rnd = self.rnd
         pool = []
-        for _ in range(10):
+        big = getattr(self, "big", False)
+        for _ in range(260 if big else 10):
             fam = rnd.choice("46")
             w = 32 if fam == "4" else 128
             ln = rnd.choice([0, 8, 16, 24, w, rnd.randint(0, w)])
             bits = "".join(rnd.choice("01") for _ in range(ln)) + "0" * (w - ln)
             pool.append(("p", (fam, bits, ln, rnd.choice([ln, w, min(w, ln + 3)]), rnd.choice([0, 1, 65000, 2 ** 32 - 1]))))
-        for _ in range(4):
+        for _ in range(130 if big else 4):
             pool.append(("k", (rnd.choice([1, 65000, 7]), rnd.randint(0, 60000))))
-        return pool
+        out = []
+        for x in pool:
+            if x not in out:
+                out.append(x)
+        return out
 
     def mutate(self, n=None):
         rnd = self.rnd
         self.history[self.serial] = list(self.data)
-        n = rnd.randint(1, 4) if n is None else n
+        n = (rnd.randint(1, 120) if self.big else rnd.randint(1, 4)) if n is None else n
         for _ in range(n):
             x = rnd.choice(self.pool)
             if x in self.data:
@@ -308,7 +314,7 @@ class Cache:
         return []
 
 
-FAULTS = ["trunc_err", "trunc_close", "timeout", "close_now", "bad_len_small", "bad_len_big", "bad_len_type", "bad_type",
+FAULTS = ["err_big", "trunc_err", "trunc_close", "timeout", "close_now", "bad_len_small", "bad_len_big", "bad_len_type", "bad_type",
           "bad_version", "bad_flags", "dup_announce", "unknown_withdraw", "eod_session", "cr_session", "spurious_reset",
           "err_nodata", "err_unsupported_ver", "err_other", "unexpected_pdu", "prefix_len_big", "notify_inside", "garbage",
           "announce_withdraw_same", "eod_v0_in_v1", "stop"]
@@ -343,7 +349,8 @@ def build_conversation(rnd, nex=6, fault_p=0.45, cfg=None, chunking=None, faults
                expire=cfg.get("expire", rnd.choice([600, 7200, 172800])),
                retry=cfg.get("retry", rnd.choice([1, 600, 7200])),
                mode=cfg.get("mode", rnd.randint(0, 3)))
-    cache = Cache(rnd, ver=cfg.get("ver", rnd.choice([1, 1, 1, 0])))
+    # now and then a cache with hundreds of records: responses cross the client's PDU-store growth steps (100, 200, ...)
+    cache = Cache(rnd, ver=cfg.get("ver", rnd.choice([1, 1, 1, 0])), big=cfg.get("big", rnd.random() < 0.06))
     cache.ivals = cfg.get("ivals", (rnd.choice([0, 1, 3600, 86400, 86401, 2 ** 32 - 1]), rnd.choice([0, 1, 600, 7200, 7201]),
                                     rnd.choice([599, 600, 7200, 172800, 172801])))
     if pre:
@@ -482,6 +489,10 @@ def build_conversation(rnd, nex=6, fault_p=0.45, cfg=None, chunking=None, faults
             deliver(error_pdu(rnd.choice([0, 0, 1, 2]), 4, q["raw"], b""))
         elif f == "err_other":
             deliver(error_pdu(cache.ver, rnd.choice([0, 1, 3, 5, 6, 7, 8, 99]), rnd.choice([b"", q["raw"]]), rnd.choice([b"", b"x" * 20])))
+        elif f == "err_big":
+            tot = rnd.choice([MAX_PDU_LEN, MAX_PDU_LEN - 1, MAX_PDU_LEN + 1, 2000])
+            enc = q["raw"]
+            deliver(error_pdu(cache.ver, rnd.choice([0, 2, 3]), enc, b"t" * max(0, tot - 16 - len(enc))))
         elif f == "unexpected_pdu":
             j = rnd.randint(0, len(pdus) - 1)
             deliver(b"".join(pdus[:j]) + rnd.choice([hdr(cache.ver, SERIAL_QUERY, 1, 12) + b"\0\0\0\1", hdr(cache.ver, RESET_QUERY, 0, 8),
